@@ -62,6 +62,8 @@ w6 = [m for m in seeded if "-w6-" in m["id"]]
 w6first = sum(1 for m in w6 if m.get("first_verdict") == "caught")
 w7 = [m for m in seeded if "-w7-" in m["id"]]
 w7first = sum(1 for m in w7 if m.get("first_verdict") == "caught")
+w8 = [m for m in seeded if "-w8-" in m["id"]]
+w8first = sum(1 for m in w8 if m.get("first_verdict") == "caught")
 sec = r'''
 ---------------------------------------------------------------------------------------------------
 
@@ -308,6 +310,35 @@ Currently ''' + "%d changes, %d valid, %d caught" % (len(seeded), nvalid, ncaugh
   was an uncaught exception of the harness, exit status 1 without a VIOLATION line; it is recorded as missed), and
   the runner confirms one observation per clause in turn, so that a reproducible clause is reached even when
   dozens of unreproducible observations of a state-leaking change sort in front of it.
+* Wave 8 (''' + "%d changes, all 20 properties; three kinds asked for: partial failure (a call refused part-way leaves something done), lazy evaluation (generators, views, results read late or twice), optional arguments given explicitly / as None / omitted: %d caught at once" % (len(w8), w8first) + r'''
+  - the lowest first-pass rate of all waves, which is why it was worth running.  The misses led to: a *prelude of refused
+  calls* (bulk calls whose last member is foreign, duplicate names, elements that live elsewhere, connected pins,
+  re-points to another shape - all must be refused and leave the design as it was) in front of uniquify, flatten, the
+  hierarchical queries and the net traces (C08, C09, C11, C12); positions that are negative, past the end or not an
+  index at all in C01 / C02 (scenarios S18); held views of instance pins across un-referencing (C02) and of reference
+  sets across clones (C07); C03 / C05 EDIF texts that declare a net twice under case-variant identifiers and instances
+  that repeat a sibling's name (both documented reader behaviour that no text exercised), and triples that sanitise
+  alike; C04 the written text read after sources the reader rejected half-way; C06 positional maps on a never-declared
+  module used several times, and designs read together with a device library (`architecture=`: every subset of the
+  library's cells, every order, both port styles, a cell lacking a port) - `primitive_library_reader.py` is anchored
+  by C06 and had not been executed by any check; C08 a second round that adds sharing below the first level, and a
+  shared cell outside any library (a failed uniquify leaves no trace); C10 exact lookups asked before an event and read
+  after it; C11 renaming edits (names of held references follow), case twins and the non-default pattern options; C12
+  starts given as a list the caller keeps, and the caller's filter; C13 a history of refused adds; C14 a bulk call that
+  names a stranger must be refused whatever collection carries the names; C15 the policy switched between making and
+  running a reader, and references spelled like an element's original name; C16 refused writes (netlist unchanged, the
+  same refusal when asked again); C17 refused adds under the EDIF policy before an export; C18 a refused draft between
+  two files, and writing without `.cname`; C19 constructors given a properties dictionary; C20 the top instance
+  dropped, a property added, the same comparer asked twice.  One change (C20-w8-m2, ports of a copy listed in another
+  order) was judged to lie outside the property as stated and is not claimed.  Genuine defects found while closing
+  these gaps, all repaired: a device library that ends in a directive made `parse(..., architecture=)` fail with
+  StopIteration; a netlist read from positional maps on a never-declared module could not be written as Verilog;
+  `Wire.connect_pin(instance_pin, <not an index>)` left the pin claiming the wire; the comparer accepted a copy whose
+  instance had gained a property.  An observation outside the properties as stated (not alarmed on): an `add_*` call
+  that fails with a TypeError because its position is not an index has by then been announced to the listeners, so the
+  name stays in the parent's name table (`d.add_port(p, 0.5)`, then `d.create_port(name=p.name)` is refused); C14 lists
+  refusals by precondition and by the naming rules, not type errors of the caller, and the S18 scenarios are therefore
+  run by C01 / C02 only.
 '''
 path = os.path.join(V, "DESIGN.md")
 s = open(path).read()
